@@ -130,11 +130,15 @@ class ethernet(packet_base):
   @staticmethod
   def parse_next (prev, typelen, raw, offset=0, allow_llc=True):
     parser = ethernet.type_parsers.get(typelen)
-    if parser is not None:
+    if parser is None and typelen < 1536 and allow_llc:
+      parser = ethernet._llc
+    if parser is None:
+      return raw[offset:]
+    try:
       return parser(raw[offset:], prev)
-    elif typelen < 1536 and allow_llc:
-      return ethernet._llc(raw[offset:], prev)
-    else:
+    except RecursionError:
+      # Headers nested deeper than the interpreter can follow (e.g. hundreds
+      # of stacked VLAN tags): leave the rest unparsed
       return raw[offset:]
 
   @staticmethod
